@@ -149,7 +149,7 @@ func checkSameExecutor(c *core.Ctx, rule string) {
 			if this {
 				okFwd = true
 			} else if notFwd == "" {
-				notFwd = c.PosStr(r.Pos())
+				notFwd = posOrEnd(c, r.Pos())
 			}
 		}
 		c.Check(okFwd && notFwd == "", rule, name+"/code", x.fn.Pos(), "every ABCI response carries the executor's response code", name+" answers without running the executor, or does not forward the executor's response code (return at "+notFwd+"): the two modes can then disagree on a transaction")
